@@ -18,6 +18,23 @@ pub type SStr = purl::SmallString;
 #[cfg(not(feature = "smart"))]
 pub type SStr = String;
 
+/// A user-defined well-known qualifier whose KEY is valid but not lower-case (the typed accessors
+/// must treat it like any other spelling of `build_tag`).
+pub struct BuildTag<'a>(pub &'a str);
+impl purl::qualifiers::well_known::KnownQualifierKey for BuildTag<'_> {
+    const KEY: &'static str = "Build_Tag";
+}
+impl<'a> From<&'a str> for BuildTag<'a> {
+    fn from(v: &'a str) -> Self {
+        BuildTag(v)
+    }
+}
+impl<'a> From<BuildTag<'a>> for SStr {
+    fn from(v: BuildTag<'a>) -> Self {
+        SStr::from(v.0)
+    }
+}
+
 #[derive(Clone, Copy, Debug, PartialEq, Eq, Hash, PartialOrd, Ord)]
 pub enum Tier {
     Quick,
